@@ -66,6 +66,21 @@ def unravel : List Nat → Nat → List Nat
 def cellObj (elites : List Elite) (i : Nat) : Option Rat :=
   (elites.find? (fun e => e.index == i)).map (·.obj)
 
+/-- the last row of the frame satisfying `p` (NumPy fancy assignment and `dict(zip(…))`:
+the last write wins), spec-shaped counterpart of the folds below -/
+def lastBy (p : Elite → Bool) : List Elite → Option Rat
+  | [] => none
+  | e :: es =>
+    match lastBy p es with
+    | some v => some v
+    | none => if p e then some e.obj else none
+
+/-- all entries present (structural `mapM` for `Option`) -/
+def allSome {α : Type} : List (Option α) → Option (List α)
+  | [] => some []
+  | none :: _ => none
+  | some a :: xs => (allSome xs).map (a :: ·)
+
 /-- `np.unravel_index` / fancy indexing reject an index outside the archive -/
 def indicesOk (cells : Nat) (elites : List Elite) : Bool :=
   elites.all (fun e => decide (e.index < cells))
@@ -105,15 +120,16 @@ abbrev Mat := Nat → Nat → Option Rat
 def Mat.set (m : Mat) (r c : Nat) (v : Rat) : Mat :=
   fun r' c' => if r' = r ∧ c' = c then some v else m r' c'
 
+/-- one fancy assignment `colors[gy, gx] = objective` -/
+def colorStep (dims : List Nat) (m : Mat) (e : Elite) : Mat :=
+  match unravel dims e.index with
+  | [gx, gy] => Mat.set m gy gx e.obj
+  | _ => m
+
 /-- `colors = np.full((y_dim, x_dim), nan); colors[gidx[:, 1], gidx[:, 0]] = objective_batch`
 (NumPy fancy assignment: the last row naming a cell wins) -/
 def fillColors (dims : List Nat) (elites : List Elite) : Mat :=
-  elites.foldl
-    (fun m e =>
-      match unravel dims e.index with
-      | [gx, gy] => Mat.set m gy gx e.obj
-      | _ => m)
-    (fun _ _ => none)
+  elites.foldl (colorStep dims) (fun _ _ => none)
 
 def materialise (rows cols : Nat) (m : Mat) : List (List (Option Rat)) :=
   (List.range rows).map (fun r => (List.range cols).map (fun c => m r c))
@@ -155,9 +171,13 @@ def gridHeatmap2 (dims : Nat × Nat) (b0 b1 : List Rat) (elites : List Elite) (t
 
 /-! ### 1-D heat-maps (`archive_heatmap_1d`) -/
 
+/-- one fancy assignment `cell_objectives[key(index)] = objective` -/
+def cellStep (key : Nat → Nat) (f : Nat → Option Rat) (e : Elite) : Nat → Option Rat :=
+  fun j => if j = key e.index then some e.obj else f j
+
 /-- `cell_objectives = np.full(cells, nan); cell_objectives[key(index_batch)] = objective_batch` -/
 def fillCells (key : Nat → Nat) (elites : List Elite) : Nat → Option Rat :=
-  elites.foldl (fun f e => fun j => if j = key e.index then some e.obj else f j) (fun _ => none)
+  elites.foldl (cellStep key) (fun _ => none)
 
 /-- 1-D grid: `cell_idx = int_to_grid_index(index_batch)[:, 0]` -/
 def grid1dKey (d : Nat) (i : Nat) : Nat :=
@@ -247,7 +267,7 @@ def clip01 (t : Rat) : Rat := if t < 0 then 0 else if 1 < t then 1 else t
 
 /-- last row of the frame naming index `i` (`dict(zip(index_batch, objective_batch))`) -/
 def lastObj (elites : List Elite) (i : Nat) : Option Rat :=
-  (elites.reverse.find? (fun e => e.index == i)).map (·.obj)
+  lastBy (fun e => e.index == i) elites
 
 /-- per centroid index `0 … cells-1`: `none` = transparent (empty cell), `some t` = the
 colormap position `clip((obj - min_obj) / (max_obj - min_obj), 0, 1)`; and the limits
@@ -278,7 +298,7 @@ deriving DecidableEq, Repr
 /-- `ax.scatter(x, y, c=objective_batch, vmin=…, vmax=…)`
 (`validate_heatmap_visual_args`: only 2-D measures) -/
 def scatter (elites : List Elite) (transpose : Bool) (vmin vmax : Option Rat) : Except Err Scatter :=
-  match elites.mapM (scatterPt transpose) with
+  match allSome (elites.map (scatterPt transpose)) with
   | none => .error .value
   | some pts =>
     match clim (elites.map (·.obj)) vmin vmax with
@@ -302,7 +322,7 @@ def boundaryLines (b0 b1 : List Rat) (lo hi : Rat × Rat) (transpose : Bool) : L
 /-! ### parallel axes plot -/
 
 /-- `df.get_field("measures")[:, cols]` for one row -/
-def pick (ms : List Rat) (cols : List Nat) : Option (List Rat) := cols.mapM (fun c => ms[c]?)
+def pick (ms : List Rat) (cols : List Nat) : Option (List Rat) := allSome (cols.map (fun c => ms[c]?))
 
 /-- relative position of measure `m` on an axis spanning `[lo, hi]` (spec-shaped) -/
 def axisFrac (lo hi m : Rat) : Rat := (m - lo) / (hi - lo)
@@ -360,8 +380,8 @@ def parallelPlot (los his : List Rat) (order : Option (List Int)) (elites : List
       match pick los cols, pick his cols with
       | some l, some h =>
         let es := if sort then sortByObj elites else elites
-        match es.mapM (fun e => (pick e.meas cols).map
-                (fun ys => (⟨e.obj, normClip lo hi e.obj, normYs l h ys⟩ : ParLine))) with
+        match allSome (es.map (fun e => (pick e.meas cols).map
+                (fun ys => (⟨e.obj, normClip lo hi e.obj, normYs l h ys⟩ : ParLine)))) with
         | some lines => .ok (lines, (lo, hi))
         | none => .error .index
       | _, _ => .error .index
